@@ -583,6 +583,9 @@ impl PW {
     pub fn poll(&mut self, sink: &mut Sink) -> Got {
         if self.stream.is_none() { return Got::End; }
         let lost_possible = self.parked && !self.flag.0.load(Ordering::SeqCst);
+        // a parked stream that is polled again (without having been woken) is polled with a NEW waker — a stream handed to
+        // another task, a combinator with its own waker: from now on that one is the one every input has to wake (C14)
+        if lost_possible { let (f, w) = flag_waker(); self.flag = f; self.waker = w; }
         let got = self.poll_raw();
         self.absorb(sink);
         if lost_possible && got != Got::Pending {
@@ -1020,6 +1023,35 @@ pub fn run(args: &Args, sink: &mut Sink) {
         }
         sink.stat_n("burst_cases", nl);
     }
+    // ---- LV. long VISIBLE bursts: 31..65 queued source updates, or one Append of as many values, every one of which shows in
+    //          the view — a single drain must deliver all of them (nothing may be held back without a wake-up) --------------
+    {
+        let mut nlv = 0u64;
+        let stages: Vec<Vec<Spec>> = vec![
+            vec![Spec::Sort(0)], vec![Spec::Sort(2)], vec![Spec::Filter(0xFF)], vec![Spec::FMap(0xFF, 1)], vec![Spec::Head(100)], vec![Spec::Tail(100)], vec![Spec::Skip(1)],
+            vec![Spec::Filter(0xFF), Spec::Sort(0)], vec![Spec::Sort(0), Spec::Head(100)], vec![Spec::DHeadI(100, 0)], vec![Spec::DSkipI(0, 0)],
+        ];
+        let bursts: Vec<usize> = if thorough { vec![5, 31, 32, 33, 34, 40, 63, 64, 65, 100] } else { vec![31, 32, 33, 40, 65] };
+        for specs in &stages {
+            for batched in [false, true] {
+                for &b in &bursts {
+                    for shape in 0..2 {
+                        nlv += 1;
+                        run_seq(sink, &format!("LV{nlv}"), 128, &[50], batched, specs, &move |w, s| {
+                            w.pdrain(s);
+                            // descending values: through a Sort stage each one becomes a diff of its own at the front
+                            if shape == 0 { for k in 0..b { w.direct(s, &Op::PushB(40 - (k % 40) as V)); } }
+                            else { w.direct(s, &Op::Append((0..b).map(|k| 40 - (k % 40) as V).collect())); }
+                            w.pdrain(s);
+                            w.direct(s, &Op::PushB(7));
+                            w.pdrain(s);
+                        });
+                    }
+                }
+            }
+        }
+        sink.stat_n("visible_burst_cases", nlv);
+    }
     // ---- LL. many limit / count values without a visible effect queued before one poll (a limit stream that is a queue),
     //          then Pending, then one with an effect: it must wake the adapter and be delivered (C14: the limit stream was
     //          polled to Pending, i.e. its waker is registered, however many values it had to swallow) --------------------
@@ -1040,6 +1072,7 @@ pub fn run(args: &Args, sink: &mut Sink) {
                             w.pdrain(s);
                             for _ in 0..n { w.limit(s, 0, same); }
                             w.ppoll(s);            // swallows the n values, nothing to hand out: Pending
+                            w.ppoll(s);            // Pending again, with another waker: that one has to be woken from now on
                             if src_too { w.direct(s, &Op::PushB(4)); w.pdrain(s); }
                             w.limit(s, 0, eff);    // must wake
                             w.ppoll(s);
